@@ -77,6 +77,8 @@ inductive Style where
   | dq      -- "…" with \\ and \" escaped (CMake / Ninja style)
   | sq      -- '…' with ' written as '\''  (POSIX sh style)
   | shlex   -- '…' with ' written as '"'"' (python shlex.quote, Meson)
+  | esc     -- every character written as \c, outside quotes (only for the characters \ " ' blank — and NUL —
+            -- in front of which `collectArgs` removes the backslash; CMake: -DV=\"1.0\", a\ b)
   deriving DecidableEq, Repr
 
 /-- characters that may appear in an argument written bare -/
@@ -96,7 +98,12 @@ def escShlex : Str → Str
   | [] => []
   | c :: r => if c = '\'' then '\'' :: '"' :: '\'' :: '"' :: '\'' :: escShlex r else c :: escShlex r
 
+def escBs : Str → Str
+  | [] => []
+  | c :: r => '\\' :: c :: escBs r
+
 def quoteArg : Style → Str → Str
+  | .esc, a => escBs a
   | .bare, a => a
   | .dq, a => '"' :: (escDq a ++ ['"'])
   | .sq, a => '\'' :: (escSq a ++ ['\''])
@@ -117,6 +124,35 @@ where
 
 /-- the hypothesis of `split_quote`: arguments are non-empty, and one written bare needs no quoting -/
 def argOk (x : Style × Nat × Str) : Bool :=
-  !x.2.2.isEmpty && (x.1 != .bare || bareOk x.2.2)
+  !x.2.2.isEmpty && (x.1 != .bare || bareOk x.2.2) && (x.1 != .esc || x.2.2.all isEscapable)
+
+/-! ### per-segment quoting: one argument written as a sequence of differently quoted pieces
+    (`-DMSG="a b"` = bare `-DMSG=` + dq `a b`;  `-DV=\"1.0\"` = bare + esc + bare + esc) -/
+
+/-- one piece of an argument may be written in the given style -/
+def segOk (x : Style × Str) : Bool :=
+  (x.1 != .bare || bareOk x.2) && (x.1 != .esc || x.2.all isEscapable)
+
+def quoteSegs : List (Style × Str) → Str
+  | [] => []
+  | (sty, a) :: r => quoteArg sty a ++ quoteSegs r
+
+/-- the argument a sequence of pieces stands for -/
+def segText : List (Style × Str) → Str
+  | [] => []
+  | (_, a) :: r => a ++ segText r
+
+/-- the command string of a vector of segmented arguments (`pad` + 1 blanks in front of all but the first) -/
+def quoteCmd : List (Nat × List (Style × Str)) → Str
+  | [] => []
+  | (_, segs) :: r => quoteSegs segs ++ cmdTail r
+where
+  cmdTail : List (Nat × List (Style × Str)) → Str
+    | [] => []
+    | (pad, segs) :: r => ' ' :: (blanks pad ++ (quoteSegs segs ++ cmdTail r))
+
+/-- hypothesis of `split_quote_partial`: the argument is non-empty and every piece may be written in its style -/
+def segsOk (x : Nat × List (Style × Str)) : Bool :=
+  !(segText x.2).isEmpty && x.2.all segOk
 
 end Cppcheck.Shell
